@@ -407,6 +407,8 @@ enum Unit {
     Line { path: &'static str, init_cap: Option<usize>, n: usize },
     /// every history up to a depth on a table of plain values
     Plain { depth: u32 },
+    /// collision-free fill of a table
+    Perfect { cap: usize },
 }
 
 fn units(tier: Tier) -> Vec<Unit> {
@@ -428,6 +430,9 @@ fn units(tier: Tier) -> Vec<Unit> {
         }
     }
     u.push(Unit::Plain { depth: tier.pick(5, 6) });
+    for cap in [4usize, 8, 16, 64, 256] {
+        u.push(Unit::Perfect { cap });
+    }
     u
 }
 
@@ -605,6 +610,52 @@ fn line(path: &str, init_cap: Option<usize>, n: usize, upto: Option<usize>) -> R
     Ok(())
 }
 
+/// Handles with pairwise distinct home buckets, inserted into a table of that many buckets: no
+/// insertion collides, so a table that only grows on collisions would fill up completely. After
+/// every insertion an absent handle is looked up (a full table never stops probing: the unit
+/// watchdog reports the hang) and at least one bucket must be empty.
+fn perfect_fill(cap: usize) -> Result<(), Diverge> {
+    let home = |h: Handle| -> Option<usize> {
+        let mut t: HandleTable<u32> = HandleTable::with_capacity(cap, SysAllocator).ok()?;
+        t.insert(h, 0).ok()?;
+        t.verif_raw_slots().iter().position(|s| s.is_some())
+    };
+    let buckets = {
+        let t: HandleTable<u32> = HandleTable::with_capacity(cap, SysAllocator).map_err(|e| dv("perfect/with_capacity", format!("{e}")))?;
+        t.verif_raw_slots().len()
+    };
+    let mut chosen: Vec<Handle> = Vec::new();
+    let mut taken = vec![false; buckets];
+    let mut n = 1u32;
+    while chosen.len() < buckets && n < 1_000_000 {
+        let h = Handle::from_u32(n);
+        if let Some(b) = home(h) {
+            if !taken[b] {
+                taken[b] = true;
+                chosen.push(h);
+            }
+        }
+        n += 1;
+    }
+    let mut t: HandleTable<u32> = HandleTable::with_capacity(cap, SysAllocator).map_err(|e| dv("perfect/with_capacity", format!("{e}")))?;
+    for (i, h) in chosen.iter().enumerate() {
+        cvx_core::engine::trace_case(|| json!({"kind": "perfect", "cap": cap, "upto": i + 1}));
+        t.insert(*h, i as u32).map_err(|e| dv("perfect/insert-error", format!("{e}")))?;
+        if !t.verif_raw_slots().iter().any(|s| s.is_none()) {
+            return Err(dv("perfect/table-full", format!("initial capacity {cap}: after {} insertions without a single collision every bucket is occupied: the next lookup of an absent handle cannot terminate", i + 1)));
+        }
+        if t.get(Handle::from_u32(3_999_999)).is_some() || t.contains(Handle::from_u32(3_999_998)) {
+            return Err(dv("perfect/phantom", "an absent handle is found".to_string()));
+        }
+        for (j, hj) in chosen.iter().take(i + 1).enumerate() {
+            if t.get(*hj).copied() != Some(j as u32) {
+                return Err(dv("perfect/lost-entry", format!("initial capacity {cap}: handle #{j} lost after {} insertions", i + 1)));
+            }
+        }
+    }
+    Ok(())
+}
+
 impl Check for C13 {
     fn id(&self) -> &'static str {
         "C13"
@@ -612,7 +663,7 @@ impl Check for C13 {
 
     fn info(&self, tier: Tier) -> CheckInfo {
         CheckInfo {
-            rule: "explicit-state BFS over histories of insert/remove/entry().or_insert_with/get_mut-assign/reserve(0|1|9)/clear/clone-and-continue on the real HandleTable<tracked value> for every requested initial capacity in {0,1,2,3,4,5,6,7,8,16,default} and both allocators; 8 handles chosen through the crate's own Handle::from_u32 so that 4 share the last bucket under masks 3..31 (wrapping chains), 2 share bucket 0; after every step get/contains/Index(handle, u32)/len/is_empty/iter/iter_mut for every handle compared with a BTreeMap model; value drop ledger; plus straight lines of insertions of distinct handles through insert / entry / alternating, all entries re-read after every insertion; plus every history of a 22-operation alphabet (insert / remove / entry / get_mut-assign on 4 colliding handles, clear, reserve, replace-by-clone, clone-and-drop, clear-then-insert) up to depth 5 (thorough 6) on HandleTable<u32> (a value type without drop glue, for which the table takes other code paths) against a BTreeMap. Canonical state = capacity, count, every bucket in storage order. Non-trivial = state with a handle displaced from its home bucket".into(),
+            rule: "explicit-state BFS over histories of insert/remove/entry().or_insert_with/get_mut-assign/reserve(0|1|9)/clear/clone-and-continue on the real HandleTable<tracked value> for every requested initial capacity in {0,1,2,3,4,5,6,7,8,16,default} and both allocators; 8 handles chosen through the crate's own Handle::from_u32 so that 4 share the last bucket under masks 3..31 (wrapping chains), 2 share bucket 0; after every step get/contains/Index(handle, u32)/len/is_empty/iter/iter_mut for every handle compared with a BTreeMap model; value drop ledger; plus straight lines of insertions of distinct handles through insert / entry / alternating, all entries re-read after every insertion; plus every history of a 22-operation alphabet (insert / remove / entry / get_mut-assign on 4 colliding handles, clear, reserve, replace-by-clone, clone-and-drop, clear-then-insert) up to depth 5 (thorough 6) on HandleTable<u32> (a value type without drop glue, for which the table takes other code paths) against a BTreeMap; plus collision-free fills: as many handles with pairwise distinct home buckets as the table has buckets (initial capacities 4, 8, 16, 64, 256), after every insertion an empty bucket remains and an absent handle is not found. Canonical state = capacity, count, every bucket in storage order. Non-trivial = state with a handle displaced from its home bucket".into(),
             bound: format!("history depth {} (capacities 4,8,16) / {} (others); lines of {} insertions", tier.pick(6, 8), tier.pick(5, 7), tier.pick(40, 200)),
             exhaustive: true,
             assumptions: vec![
@@ -656,6 +707,18 @@ impl Check for C13 {
                 out.states += 1;
                 out.outcome("plain-value histories".to_string());
             }
+            Unit::Perfect { cap } => {
+                out.evaluations += 1;
+                out.traces += 1;
+                match hist::guarded(|| perfect_fill(cap), "perfect") {
+                    Ok(()) => {
+                        out.nontrivial += 1;
+                        out.states += 1;
+                        out.outcome("collision-free fill ok".to_string());
+                    }
+                    Err(d) => out.violation(Violation::new("C13", d.0, d.1, json!({"kind": "perfect", "cap": cap}))),
+                }
+            }
             Unit::Line { path, init_cap, n } => {
                 out.evaluations += 1;
                 out.traces += 1;
@@ -674,6 +737,13 @@ impl Check for C13 {
 
     fn replay(&self, case: &J) -> Option<Violation> {
         let init_cap = case["init_cap"].as_u64().map(|c| c as usize);
+        if case["kind"].as_str() == Some("perfect") {
+            let cap = case["cap"].as_u64()? as usize;
+            return match hist::guarded(|| perfect_fill(cap), "perfect") {
+                Ok(()) => None,
+                Err(d) => Some(Violation::new("C13", d.0, d.1, case.clone())),
+            };
+        }
         if case["kind"].as_str() == Some("plain") {
             let h: Vec<u64> = serde_json::from_value(case["history"].clone()).ok()?;
             return match hist::guarded(|| plain_history(&h), "plain") {
